@@ -83,10 +83,17 @@ fn gen(rng: &mut Rng, case: u64) -> Case {
     let const_dt = if case % 3 == 0 { Some(interval(rng)) } else { None };
     while h.len() < target {
         let run = match rng.below(5) { 0 => 1, 1 => 2, 2 => 3, 3 => 4 + rng.usize(6), _ => 10 + rng.usize(30) };
+        // creeping runs: the error changes by a few units in its last place from sample to sample (a slowly moving
+        // axis far from its setpoint): D is then a small difference of nearby values, exactly representable
+        let creep = rng.chance(0.15);
         for _ in 0..run {
             t += const_dt.unwrap_or_else(|| interval(rng));
             // strata: fresh value, the previous value again (error unchanged, D = 0), exactly the setpoint (e = 0)
-            let v = match rng.below(12) { 0 => last, 1 => sp, _ => rng.moderate(1e4) };
+            let v = if creep && (sp as f64 - last as f64).abs() >= 1e-3 { // (no creeping around e = 0: nothing there but underflow)
+                let e = sp as f64 - last as f64;
+                let ulp_e = e.abs() * (2.0f64).powi(-23);
+                (last as f64 + rng.sign() * (1 + rng.below(24)) as f64 * ulp_e) as f32
+            } else { match rng.below(12) { 0 => last, 1 => sp, _ => rng.moderate(1e4) } };
             last = v;
             h.push(Ev::Some(t, v));
         }
@@ -96,7 +103,11 @@ fn gen(rng: &mut Rng, case: u64) -> Case {
         }
     }
     h.truncate(target.min(64));
-    Case { sp, kp: rng.moderate(1e4), ki: rng.moderate(1e4), kd: rng.moderate(1e4), h }
+    // "all finite gains": in a fraction of the cases some gains are huge (every documented term is then checked only at
+    // the steps where it stays below f32::MAX/8, see the guard in main)
+    let huge = rng.chance(0.06);
+    let mut gain = |rng: &mut Rng| if huge && rng.chance(0.5) { (rng.sign() * rng.log_uniform(1e20, 3e37)) as f32 } else { rng.moderate(1e4) };
+    Case { sp, kp: gain(rng), ki: gain(rng), kd: gain(rng), h }
 }
 fn run_real(c: &Case, shift: i64, scale: f32) -> Vec<Out<f32>> {
     run_observed(c, shift, scale, None)
@@ -152,15 +163,23 @@ fn main() {
                             integ += add;
                             integ_abs += dt * (ep.abs() + err.abs()) / 2.0;
                             dtclass |= 1 << (((*t - tp) as f64).log10() as u32).min(15);
+                            if err != ep && (err - ep).abs() <= 16.0 * (2.0f64).powi(-23) * err.abs().max(ep.abs()) { rep.tally("steps_with_error_change_of_a_few_ulps"); }
                             ((err - ep) / dt, (err.abs() + ep.abs()) / dt)
                         }
                         None => { integ = 0.0; integ_abs = 0.0; (0.0, 0.0) }
                     };
                     run_len += 1;
                     let expect = kp * err + ki * integ + kd * dterm;
-                    let mag = (kp * err).abs() + ki.abs() * integ_abs + kd.abs() * dmag;
+                    // bound in units of 2^-24. P and I terms: K(n) x magnitude. D term: the error e = fl(setpoint - x) carries
+                    // at most 2^-24|e| each, so the difference quotient carries (|e|+|e_prev|)/dt (x3 for safety) plus a few
+                    // roundings relative to the quotient ITSELF - not K x (|e|+|e_prev|)/dt, which would hide a derivative
+                    // that is wrong by many times its own size when the two errors are close
+                    let mag = ((kp * err).abs() + ki.abs() * integ_abs) + kd.abs() * (3.0 * dmag + 12.0 * dterm.abs()) / kk(run_len);
+                    let biggest = (kp * err).abs().max((ki * integ).abs()).max((kd * dterm).abs()); // the documented terms themselves (an earlier, larger integral does not disqualify this step)
                     rep.eval();
                     rep.tally("steps_present");
+                    if biggest > f32::MAX as f64 / 8.0 { rep.tally("steps_skipped_term_near_overflow"); prev = Some((*t, err)); continue; }
+                    if biggest > 1e30 { rep.tally("steps_with_huge_terms_checked"); }
                     match &outs[i] {
                         Ok(Some(d)) => {
                             if d.time.0 != *t {
@@ -207,7 +226,8 @@ fn main() {
                 break;
             }
         }
-        let k = rng.range_i64(-8, 8) as i32;
+        let mut k = rng.range_i64(-8, 8) as i32;
+        if c.kp.abs().max(c.ki.abs()).max(c.kd.abs()) > 1e19 { k = -k.abs(); } // huge gains: only scale down (scaling up overflows legitimately)
         let scale = (2.0f32).powi(k);
         let scaled = run_real(&c, 0, scale);
         rep.eval();
@@ -257,6 +277,7 @@ fn main() {
                 };
                 prev = Some((*t, err));
                 let mag = (kp * err).abs() + ki.abs() * integ_abs + kd.abs() * dmag;
+                if (kp * err).abs().max(ki.abs() * integ_abs).max(kd.abs() * dmag) > f32::MAX as f64 / 8.0 { continue; }
                 rep.eval();
                 rep.tally("composition_steps");
                 let got = sp_.output.get();
@@ -283,5 +304,7 @@ fn main() {
     rep.floor("resets_by_absent", 50);
     rep.floor("resets_by_error", 50);
     rep.floor("composition_steps", 1000);
+    rep.floor("steps_with_error_change_of_a_few_ulps", 500);
+    rep.floor("steps_with_huge_terms_checked", 500);
     rep.finish(&args);
 }
